@@ -60,16 +60,16 @@ def _analyses():
     thread = lambda c, w: kt.global_effects(c, w, thread=True)
     return {
         "C01": (
-            [a3.vjp, a3.helpers, a3_reduce.reductions, km.squeeze_axes, a16_perm.permutations_rule, a16_perm.norm_rolls, a17_labels.contraction_adjoints, vjp_axis, vjp_order, a2.catchall, a2.variadic, a2.argnums_rules, a1.arity, ka.option_domains, a5_factor.agree, a5_linear.closures_linear, ka.arraybox_table, kc.inplace_sites],
+            [a3.vjp, a3.helpers, a3_reduce.reductions, km.squeeze_axes, a16_perm.permutations_rule, a16_perm.norm_rolls, a17_labels.contraction_adjoints, vjp_axis, vjp_order, a2.catchall, a2.variadic, a2.argnums_rules, a2.positional_selection, a1.arity, ka.option_domains, a5_factor.agree, a5_linear.closures_linear, ka.arraybox_table, kc.inplace_sites],
             "Reverse-mode exactness is numerical; decided here are the configuration-dependent plumbing clauses every exact rule needs: "
             "broadcast discipline of VJPs (A3.vjp), negative-axis hazards (A7), layout-relative `order` values never forwarded to the cotangent (A7.order), keyword/positional binding behind catch-alls (A2.catchall), "
-            "variadic offsets (A2.variadic), whole-argnums rules map element-wise (A2.argnums), arity (A1.arity), closed option domains (A6.enum), VJP/JVP factor agreement of elementwise rules (A5), linearity of every rule closure in its cotangent (A5.lin: a VJP is a linear map; helper primitives it calls must be known to be linear in that operand) "
+            "variadic offsets (A2.variadic), whole-argnums rules map element-wise (A2.argnums), slots of variadic primitives addressed by position, never by operand identity (A2.position), arity (A1.arity), closed option domains (A6.enum), VJP/JVP factor agreement of elementwise rules (A5), linearity of every rule closure in its cotangent (A5.lin: a VJP is a linear map; helper primitives it calls must be known to be linear in that operand) "
             "and the operator/method call forms (A14); no rule writes in place to its cotangent, its arguments or the answer (A9.inplace: every other rule that reads the same array would see the changed values). Each is a necessary condition: breaking one makes some call configuration silently wrong.",
         ),
         "C02": (
-            [a1.lin, a3.jvp, a3.helpers, a3_reduce.reductions, a16_perm.norm_rolls, ka.sibling_guards, jvp_axis, jvp_order, a2.catchall, a1.arity, kc.zero_paths, a5_factor.agree, a5_linear.closures_linear, kc.inplace_sites],
+            [a1.lin, a3.jvp, a3.helpers, a3_reduce.reductions, a16_perm.norm_rolls, ka.sibling_guards, jvp_axis, jvp_order, a2.catchall, a2.positional_selection, a1.arity, kc.zero_paths, a5_factor.agree, a5_linear.closures_linear, kc.inplace_sites],
             "Forward-mode: 'same'/def_linear only on linear (function, argument) pairs (A1.lin: exactly when the primitive applied to the tangent IS the JVP), "
-            "output-shaped tangents of broadcasting JVPs (A3.jvp), guard agreement with the VJP twin (A6.sibling), axis hazards (A7), layout-relative `order` values (A7.order) and binding (A2) of JVP makers, "
+            "output-shaped tangents of broadcasting JVPs (A3.jvp), guard agreement with the VJP twin (A6.sibling), axis hazards (A7), layout-relative `order` values (A7.order) and binding (A2; slots of variadic primitives addressed by position, A2.position) of JVP makers, "
             "(value, tangent) order and zero tangents of the right space (A13.zero/A2.tuple), VJP/JVP factor agreement of elementwise rules (A5), linearity of every rule in its tangent (A5.lin); no JVP rule writes in place to the tangent, the arguments or the answer it is given (A9.inplace: the tangent stored on the parent node is read again by every later consumer).",
         ),
         "C03": (
@@ -83,9 +83,9 @@ def _analyses():
             "factors IS adjointness for all inputs); linearity in g of every rule closure (two-point domain over linear_in facts); 'same' entries only on linear pairs.",
         ),
         "C05": (
-            [a3.vjp, a3.helpers, a3_reduce.reductions, km.squeeze_axes, a4.match, kc.zero_paths, a1.types, a2.layout, a4_dtype.dtype_comparisons],
+            [a3.vjp, a3.helpers, a3_reduce.reductions, km.squeeze_axes, a4.match, kc.zero_paths, a1.types, a2.layout, a4_dtype.dtype_comparisons, a4_dtype.cotangent_template],
             "A gradient lives in its argument's space: shape support under broadcasting (A3.vjp), real/complex kind for every kind assignment of the arguments (A4.match, exhaustive 2^n), "
-            "kind decisions never made by dtype == <Python scalar type> (A4.dtypecmp), zeros of the argument's / output's space on independent paths (A13.zero), one Box and one VSpace per differentiable type (A1.types), container layout (A2.layout).",
+            "kind decisions never made by dtype == <Python scalar type> (A4.dtypecmp), the shape/dtype template of a rebuilt cotangent taken from the differentiated argument (A4.template), zeros of the argument's / output's space on independent paths (A13.zero), one Box and one VSpace per differentiable type (A1.types), container layout (A2.layout).",
         ),
         "C06": (
             [kt.trace_fn, kt.wrapper, kt.notrace_wrapper, kt.find_top, kt.new_trace, km.wrap_namespace, ka.arraybox_table, a1.methods, ka.operators, ka.wrapper_signatures, km.axis_normalisation_consistency, kc.inplace_sites],
@@ -134,8 +134,8 @@ def _analyses():
             "facts about NumPy) for both node types (A1.sym); comparisons map to untraced functions, __bool__/shape/len read the raw value (A14); the notrace branch returns plain values; a written-out rule for a locally constant argument has that argument's shape support (A3.vjp).",
         ),
         "C15": (
-            [kc.raise_discipline, ka.guard_dominance, ka.option_domains, ka.sibling_guards, ka.raw_calls_in_wrappers, ka.arraybox_table, ka.operators, a1.nograd, a1.none_rules, _namespace_classes, km.wrap_namespace, km.guard_functions, a16_perm.norm_support],
-            "Loud failure: handlers on the rule-lookup/boxing path end in raise and lookups index (A6.raise), guards cannot be bypassed (A6.dom), closed option domains covered (A6.enum), unsupported (rank, axis, ord) configurations of linalg.norm rejected on the whole finite domain (A6.support), "
+            [kc.raise_discipline, ka.guard_dominance, ka.option_domains, ka.sibling_guards, ka.raw_calls_in_wrappers, ka.arraybox_table, ka.operators, a1.nograd, a1.none_rules, _namespace_classes, km.wrap_namespace, km.guard_functions, a16_perm.norm_support, a16_perm.permutations_rule],
+            "Loud failure: handlers on the rule-lookup/boxing path end in raise and lookups index (A6.raise), guards cannot be bypassed (A6.dom), closed option domains covered (A6.enum), unsupported (rank, axis, ord) configurations of linalg.norm rejected on the whole finite domain (A6.support), every axis configuration of the axis-permuting primitives and of diagonal either returns the argument's layout or raises (A16, exhaustive over ranks 1..4), "
             "guard agreement VJP<->JVP (A6.sibling), raw results re-traced (A6.rawcall), no __setitem__/in-place dunders and output checks of grad/value_and_grad/elementwise_grad (A6.ops), "
             "the only declarative ways to drop dependence are locally constant (A1.nograd/none), namespace classification of every exported callable.",
         ),
